@@ -4,6 +4,7 @@ import MpcVerif.Model.Clmul
 import MpcVerif.Model.Kos
 import MpcVerif.Model.KosSet
 import MpcVerif.Model.KosBuf
+import MpcVerif.Model.KosMix
 
 /-!
 Line-protocol handler of property C15.
@@ -26,6 +27,15 @@ Line-protocol handler of property C15.
         prefix `!`, or when the seed is altered, ALSO by running the model
         `Kos.sendKos` on the altered messages (and the dense `Kos.residual`):
         all must agree.
+  mhist <stape> <rtape> <arenaLabels> <calls>
+        a MIXED history on one pair (`Kos.sessionM` step by step), calls joined by `;`:
+          M:<n>:<choices>:<buf>   malicious-mode label call (with the check)
+          L:<n>:<choices>:<buf>   semi-honest label call
+          B:<n>:<choice words>    packed-bit call (`SendBits` / `ReceiveBits`, fresh result slices)
+        Receiver tape: 256 base-OT labels, then b0, b1, seed2 per M call.
+        -> per call `resp=../s=../r=..` (M), `s=../r=..` (L), `sw=<words>/rw=<words>` (B); `A` = abort.
+  mhist0 ...  the same history on the VARIANT model in which the sender's packed-bit call
+        advances only the stream of column 0 (not the code of /repo; `C15_kos_mixed_needs_all_columns`).
   chi   <seed2> <n>
         the challenge coefficients of the `n + 256` rows of a call with this
         seed (`newPrg(seed2)` read 16 bytes per row, ONE stream for payload
@@ -383,6 +393,89 @@ def handleHist (stape rtape al calls : String) : String :=
       | some p => ";".intercalate (runHist p rtape RecvSt.init SendSt.init (zerosL al) (2 * K * 16) cs)
   | _, _, _ => "bad-op"
 
+/-! ### mixed histories: malicious-mode, semi-honest and packed-bit calls on one pair -/
+
+def wordHex (w : BitVec 64) : String := Id.run do
+  let mut s := ""
+  for i in [0:16] do
+    s := s.push (hexDigit ((w.toNat >>> (4 * (15 - i))) % 16))
+  return s
+
+def wordsHex (ws : Words) : String :=
+  if ws.size = 0 then "-" else String.join (ws.toList.map wordHex)
+
+def parseWords (s : String) : Option Words :=
+  if s == "-" then some #[] else do
+    let b ← Aes.bytesOfHex s
+    if b.size % 8 ≠ 0 then none else
+    some (mk (b.size / 8) fun i => Id.run do
+      let mut n := 0
+      for t in [0:8] do
+        n := (n <<< 8) ||| (b[8 * i + t]!).toNat
+      return BitVec.ofNat 64 n)
+
+inductive MSpecCall where
+  | mal (c : HCall)
+  | lab (c : HCall)
+  | bits (n : Nat) (ch : Words)
+
+def MSpecCall.cols : MSpecCall → Nat
+  | .mal c => colBytes c.n + 32
+  | .lab c => colBytes c.n
+  | .bits n _ => colBytes n
+
+def parseMCall (al : Nat) (s : String) : Option MSpecCall :=
+  match s.splitOn ":" with
+  | [k, n, ch, buf] =>
+    if k == "M" then (parseHCall al s!"{n}:{ch}:{buf}").map .mal
+    else if k == "L" then (parseHCall al s!"{n}:{ch}:{buf}").map .lab
+    else none
+  | ["B", n, ch] => do
+    let n ← n.toNat?
+    let ch ← parseWords ch
+    some (.bits n ch)
+  | _ => none
+
+/-- `col0`: the variant in which the sender's packed-bit call advances only column 0. -/
+def runMHist (col0 : Bool) (p : Pair) (rtape : ByteArray) : RecvSt → SendSt → Arena → Nat → List MSpecCall → List String
+  | _, _, _, _, [] => []
+  | rs, ss, ar, rpos, .mal c :: cs =>
+    if rtape.size < rpos + 48 then ["bad-tape"] else
+    let b0 := label128 rtape rpos
+    let b1 := label128 rtape (rpos + 16)
+    let seed2 := label128 rtape (rpos + 32)
+    let X := mkX [(seed2, chiTable seed2 (c.n + 256))]
+    match runMCall Store.assign .write X p.R0 p.R1 p.SS p.delta rs ss ar (.kos ⟨c.b, b0, b1, seed2, c.buf⟩) with
+    | some (rs', ss', ar', .kos r sent) =>
+      s!"resp={labelsHex r.resp}/s={labelsHex sent}/r={labelsHex r.labels}" :: runMHist col0 p rtape rs' ss' ar' (rpos + 48) cs
+    | _ => ["A"]
+  | rs, ss, ar, rpos, .lab c :: cs =>
+    match runMCall Store.assign .write (fun _ _ => 0#128) p.R0 p.R1 p.SS p.delta rs ss ar
+        (.plain (.labels false c.b 0#128 0#128 c.buf)) with
+    | some (rs', ss', ar', .plain o) =>
+      s!"s={labelsHex o.out.sentL}/r={labelsHex o.out.rcvdL}" :: runMHist col0 p rtape rs' ss' ar' rpos cs
+    | _ => ["A"]
+  | rs, ss, ar, rpos, .bits n ch :: cs =>
+    match runMCall Store.assign .write (fun _ _ => 0#128) p.R0 p.R1 p.SS p.delta rs ss ar (.plain (.bits n ch .fresh .fresh)) with
+    | some (rs', ss', ar', .plain o) =>
+      let ss'' : SendSt := if col0 then ⟨fun i => if i = 0 then ss'.p 0 else ss.p i⟩ else ss'
+      s!"sw={wordsHex o.out.sentW}/rw={wordsHex o.out.rcvdW}" :: runMHist col0 p rtape rs' ss'' ar' rpos cs
+    | _ => ["A"]
+
+/-- `mhist <stape> <rtape> <arenaLabels> <calls>` / `mhist0 ...` -/
+def handleMHist (col0 : Bool) (stape rtape al calls : String) : String :=
+  match Aes.bytesOfHex stape, Aes.bytesOfHex rtape, al.toNat? with
+  | some stape, some rtape, some al =>
+    match (calls.splitOn ";").mapM (parseMCall al) with
+    | none => "bad-op"
+    | some cs =>
+      let total := (cs.map MSpecCall.cols).foldl (· + ·) 0
+      match mkPair stape rtape total with
+      | none => "error"
+      | some p =>
+        ";".intercalate (runMHist col0 p rtape RecvSt.init SendSt.init ⟨zerosL al, #[], #[]⟩ (2 * K * 16) cs)
+  | _, _, _ => "bad-op"
+
 /-- `chi <seed2> <n>` -/
 def handleChi (seed n : String) : String :=
   match parseLabel seed, n.toNat? with
@@ -401,6 +494,8 @@ def handle (args : List String) : String :=
   | ["inner", a, b] => handleInner a b
   | ["sess", stape, rtape, n, choices, faults] => handleSess stape rtape n choices faults
   | ["hist", stape, rtape, al, calls] => handleHist stape rtape al calls
+  | ["mhist", stape, rtape, al, calls] => handleMHist false stape rtape al calls
+  | ["mhist0", stape, rtape, al, calls] => handleMHist true stape rtape al calls
   | _ => "bad-op"
 
 end Drv.C15
